@@ -1983,12 +1983,13 @@ impl Fs {
                     self.synced_entries.swap_remove(p);
                 }
                 PendingOp::Rename { from, to } => {
-                    if from.parent() == Some(path) {
-                        dir_modified = true;
-                        self.synced_entries.swap_remove(from);
-                    }
-                    if to.parent() == Some(path) {
-                        dir_modified = true;
+                    // The rename is flushed as a whole (the inode moves in
+                    // the persisted image below), so the durable entry has
+                    // to move as a whole too, even when only one of the two
+                    // parent directories is the one being synced.
+                    dir_modified = true;
+                    let was_durable = self.synced_entries.swap_remove(from);
+                    if was_durable || to.parent() == Some(path) {
                         self.synced_entries.insert(to.clone());
                     }
                 }
